@@ -95,8 +95,23 @@ where
     T: Number,
     usize: Cast<T>,
 {
+    let zero = T::zero();
+    // an empty span in the direction of the step (unsigned `b - a` must not underflow)
+    if (step > zero && b <= a) || (step < zero && b >= a) {
+        return Linspace {
+            start: a,
+            step,
+            len: 0,
+            index: 0,
+        };
+    }
     let len = b - a;
-    let steps = (len / step).ceil();
+    let mut steps = (len / step).ceil();
+    // integer division truncates: one more point if the last one is still before the end
+    let last = a + steps * step;
+    if (step > zero && last < b) || (step < zero && last > b) {
+        steps += T::one();
+    }
     Linspace {
         start: a,
         step,
